@@ -15,9 +15,10 @@ EXPLANATION = (
     "helper cover the eager parser, the lazy accessor and the array-value iterators for INFO and for samples, and the "
     "writers of both columns call their encoder; (R3) the lone '.' escape is present in both string writers; (R4) the "
     "variant span has one provided implementation that neither record type overrides."
-    " (R5) reused destination: every entry->Ok path of the eager VCF parser overwrites or clears each RecordBuf column (samples are reset element-wise and are tabled as not decided); (R6) append-buffer discipline for all VCF line readers."
+    " (R5) reused destination: every entry->Ok path of the eager VCF parser overwrites or clears each RecordBuf column (samples are reset element-wise: R11); (R6) append-buffer discipline for all VCF line readers."
     " (R7) UTF-8 validation per fill_buf window in the lazy record reader carries an incomplete trailing character over to the next window."
-    " (R8) the VCF-text header sub-reader (vcf, bcf; sync and async) agrees with the majority of the ten copies of that state machine.")
+    " (R8) the VCF-text header sub-reader (vcf, bcf; sync and async) agrees with the majority of the ten copies of that state machine."
+    " (R10) the async VCF writer clears its line buffer before the inner writer fills it; (R11) element-wise reset: every per-sample value row of the reused Samples is cleared (loop, for_each(clear), whole clear, or a callee that resets on all success paths) before parse_values — which returns Ok untouched for a `.` column — fills it.")
 ASSUMPTIONS = ["percent-encoding crate encodes exactly the bytes in the AsciiSet (plus non-ASCII) and decodes %XX",
                "reader delimiter constants are the named DELIMITER/SEPARATOR consts of the reader modules (floor-checked)"]
 NOT_DECIDED = ["value equality over the VCF grammar (numbers, floats, genotype strings, header records)",
@@ -134,7 +135,7 @@ def run(ctx):
                          ["reference_sequence_name_mut", "variant_start_mut", "ids_mut", "reference_bases_mut", "alternate_bases_mut",
                           "quality_score_mut", "filters_mut", "info_mut", "samples_mut"],
                          exceptions={"samples_mut": "parse_samples resets Samples field-wise (keys cleared, every values row cleared in a loop, "
-                                                    "then resized): an element-wise reset the whole-object rule cannot follow"})
+                                                    "then resized): an element-wise reset, decided by C09.R11"})
 
     ctx.rule("C09.R11", "A10 element-wise reset: every per-sample value row of the reused Samples is cleared before parse_values fills it "
                         "(parse_values returns Ok without touching its destination for a `.` column)")
